@@ -479,6 +479,8 @@ def _get_OP_SWAP_type_args(
     args = []
     symbols_to_advance += 2
     vals = symbols[:2]
+    yert(len(vals) == 2,
+        f'{opname} - requires 2 args - symbol {symbol_index}')
 
     for val in vals:
         yert(val[0].lower() in ('d', 'x'),
@@ -511,6 +513,8 @@ def _get_OP_CHECK_MULTISIG_args(
     args = []
     symbols_to_advance += 3
     vals = symbols[:3]
+    yert(len(vals) == 3,
+        f'{opname} - requires 3 args - symbol {symbol_index}')
 
     for val in vals:
         yert(val[0].lower() in ('d', 'x'),
